@@ -96,6 +96,9 @@ def parse_header(lines):
     return info
 
 
+RUN_TIMEOUT = None          # seconds; set by callers that probe configurations which may not terminate (C09)
+
+
 def run(c, x=None, **extra):
     """One job through the real library.  x: numpy array already in the input datatype (interleaved); None = plan only."""
     env = dict(os.environ)
@@ -111,7 +114,10 @@ def run(c, x=None, **extra):
     else:
         it = extra.get("itype", c.get("itype", 1))
         data = np.ascontiguousarray(x, dtype=DTYPES[it & 3]).tobytes()
-    p = subprocess.run([harness()] + cfg_args(c, **extra), input=data, stdout=subprocess.PIPE, stderr=subprocess.PIPE, env=env)
+    try:
+        p = subprocess.run([harness()] + cfg_args(c, **extra), input=data, stdout=subprocess.PIPE, stderr=subprocess.PIPE, env=env, timeout=RUN_TIMEOUT)
+    except subprocess.TimeoutExpired:
+        raise RuntimeError("signal harness HUNG: no answer within %s s on %s" % (RUN_TIMEOUT, cfg_label(c)))
     if p.returncode:
         raise RuntimeError("signal harness failed (%d) on %s: %s" % (p.returncode, cfg_label(c), p.stderr.decode()[-400:]))
     i = p.stdout.index(b"END\n")
